@@ -286,6 +286,26 @@ def check_add(provider, rnd, count):
             if got.utcoffset() != timedelta(0) or (v.tzinfo is not None and got != v) or not e.to_ical().decode().split(nm.upper() + ":")[1].startswith(got.strftime("%Y%m%dT%H%M%SZ")):
                 fails.append({"witness": {"call": "add", "name": nm, "value": repr(v), "provider": provider},
                               "detail": f"add({nm!r}, {v!r}) stores {got!r}: not the same instant in UTC"})
+    # ... and nothing else is forced: the stored value of any other DATE-TIME property is the supplied one (the contract's `forced` clause)
+    forced3 = {"DTSTAMP", "CREATED", "LAST-MODIFIED"}
+    names = sorted(k for k, row in spec_table()["properties"].items() if row.get("default") == "DATE-TIME" and k not in forced3) + ["X-WHEN"]
+    for nm in names:
+        for v in (mk(berlin, 2024, 7, 1, 12, 0), datetime(2024, 7, 1, 12, 0), mk(ny, 2024, 11, 3, 1, 30)):
+            n += 1
+            e = Event()
+            try:
+                e.add(nm.lower(), v)
+                got = e[nm]
+                if hasattr(got, "dts") and len(got.dts) == 1:
+                    got = got.dts[0]          # RDATE / EXDATE are list valued: one element here
+                got = getattr(got, "dt", got)
+            except Exception as ex:  # noqa
+                got = ex
+            if nm == "X-WHEN":
+                continue  # unknown names are text: only the absence of an exception is checked here
+            if not isinstance(got, datetime) or got != v or got.tzinfo is not v.tzinfo:
+                fails.append({"witness": {"call": "add", "name": nm, "value": repr(v), "provider": provider},
+                              "detail": f"add({nm.lower()!r}, {v!r}) stores {got!r}: not the supplied value (only DTSTAMP, CREATED, LAST-MODIFIED are converted to UTC)"})
     return fails, n
 
 
